@@ -26,13 +26,13 @@ fn space_for(tier: Tier) -> Space {
     let mut s = Space::new();
     match tier {
         Tier::Quick => {
-            s.ast("K", 3, 64).ast("Q", 2, 64).ast("CL", 2, 64).ast("G", 4, 64).ast("AN", 3, 64).ast("U", 3, 64);
-            s.tok("T", &gen::T_FULL, 2, 64).tok("T0", &gen::T_CORE, 3, 64);
+            s.ast("K", 4, 64).ast("Q", 2, 64).ast("CL", 3, 64).ast("G", 5, 64).ast("AN", 3, 64).ast("U", 3, 64);
+            s.tok("T", &gen::T_FULL, 3, 64).tok("T0", &gen::T_CORE, 3, 64);
             s.list("flagstrings", 1 + 11 + 121 + 1331, 128);
         }
         Tier::Thorough => {
-            s.ast("K", 4, 64).ast("Q", 3, 64).ast("CL", 3, 64).ast("G", 5, 64).ast("AN", 4, 64).ast("U", 4, 64).ast("CI", 3, 64);
-            s.tok("T", &gen::T_FULL, 3, 64).tok("T0", &gen::T_CORE, 4, 64);
+            s.ast("K", 5, 64).ast("Q", 3, 64).ast("CL", 3, 64).ast("G", 6, 64).ast("AN", 4, 64).ast("U", 4, 64).ast("CI", 3, 64);
+            s.tok("T", &gen::T_FULL, 3, 64).tok("T0", &gen::T_CORE, 5, 64);
             s.list("flagstrings", 1 + 11 + 121 + 1331, 128);
         }
     }
